@@ -797,4 +797,82 @@ def pre(ctx):
             problems.append("the alias table of types.rs changed and no longer equals the model's table (theorem aliases_generated): " + (out + err)[-800:])
     if set(u for _, u, _ in rows) | set(i for _, _, i in rows) != set(ALIASES):
         problems.append("alias set in types.rs differs from the expected U128..U8192 / I128..I8192")
+    problems += pre_consts(ctx)
+    return problems
+
+
+def _strip_rs(src):
+    """Rust source without comments and `#[doc ...]` attributes, white space collapsed"""
+    src = re.sub(r"//[^\n]*", "", src)
+    src = re.sub(r"/\*.*?\*/", "", src, flags=re.S)
+    src = re.sub(r"#\[doc[^\]]*\]", "", src)
+    return re.sub(r"\s+", " ", src)
+
+
+def pre_consts(ctx):
+    """Translator for the named constants: the `pos_const!` / `neg_const!` invocations of src/buint/consts.rs and
+    src/bint/consts.rs are re-read on every run, written to lean/Bnum/Generated/ConstNames.lean as name -> literal
+    tables, and the kernel checks (by `rfl`) that they are the tables `Consts.posNames` / `Consts.negNames` the model's
+    constants - and the theorems about them - are built from.  The macro *bodies* and the six hand-written items
+    (MIN, MAX, BITS, BYTES, ZERO, signed ONE) are compared with the text the model's definitions transcribe."""
+    problems = []
+    try:
+        u = _strip_rs(open("/repo/src/buint/consts.rs").read())
+        i = _strip_rs(open("/repo/src/bint/consts.rs").read())
+    except OSError as e:
+        return ["consts.rs unreadable: %r" % (e,)]
+    shapes = [
+        (u, "macro_rules! pos_const { ($($name: ident $num: literal), *) => { $( pub const $name: Self = Self::from_digit($num); )* } }", "buint pos_const! body"),
+        (u, "pub const MIN: Self = Self::from_digits([$Digit::MIN; N]);", "BUint::MIN"),
+        (u, "pub const MAX: Self = Self::from_digits([$Digit::MAX; N]);", "BUint::MAX"),
+        (u, "pub const BITS: ExpType = digit::$Digit::BITS * N as ExpType;", "BUint::BITS"),
+        (u, "pub const BYTES: ExpType = Self::BITS / 8;", "BUint::BYTES"),
+        (u, "pub const ZERO: Self = Self::MIN;", "BUint::ZERO"),
+        (i, "macro_rules! pos_const { ($BUint: ident; $($name: ident $num: literal), *) => { $( pub const $name: Self = Self::from_bits($BUint::$name); )* } }", "bint pos_const! body"),
+        (i, "macro_rules! neg_const { ($BUint: ident; $($name: ident $num: literal), *) => { $( pub const $name: Self = { let mut u = $BUint::MAX; u.digits[0] -= ($num - 1); Self::from_bits(u) }; )* } }", "bint neg_const! body"),
+        (i, "pub const MIN: Self = { let mut digits = [0; N]; digits[N - 1] = 1 << ($Digit::BITS - 1); Self::from_bits($BUint::from_digits(digits)) };", "BInt::MIN"),
+        (i, "pub const MAX: Self = { let mut digits = [$Digit::MAX; N]; digits[N - 1] >>= 1; Self::from_bits($BUint::from_digits(digits)) };", "BInt::MAX"),
+        (i, "pub const BITS: ExpType = $BUint::<N>::BITS;", "BInt::BITS"),
+        (i, "pub const BYTES: ExpType = $BUint::<N>::BYTES;", "BInt::BYTES"),
+        (i, "pub const ZERO: Self = Self::from_bits($BUint::ZERO);", "BInt::ZERO"),
+        (i, "pub const ONE: Self = Self::from_bits($BUint::ONE);", "BInt::ONE"),
+    ]
+    for text, shape, what in shapes:
+        if shape not in text:
+            problems.append(f"consts.rs: {what} no longer has the text the model (lean/Bnum/Model/Consts.lean) transcribes: `{shape}`")
+
+    def invocation(text, macro):
+        m = re.search(macro + r"!\(\s*(?:\$BUint;\s*)?([^)]*)\)\s*;", text)
+        if not m:
+            return None
+        return [(a, int(b)) for a, b in re.findall(r"([A-Z_]+)\s+(\d+)", m.group(1))]
+    pu, pi, ni = invocation(u, "pos_const"), invocation(i, "pos_const"), invocation(i, "neg_const")
+    if pu is None or pi is None or ni is None:
+        problems.append("consts.rs: a pos_const!/neg_const! invocation was not found")
+        return problems
+    pi = [("ONE", 1)] + pi        # the signed ONE is written out (`from_bits($BUint::ONE)`), shape checked above
+
+    def tab(rows):
+        return "[" + ", ".join('("%s", %d)' % r for r in rows) + "]"
+    lean = ("/- GENERATED on every run of check C16 from /repo/src/{buint,bint}/consts.rs by gen/c16.py (pre_consts); do not edit. -/\n"
+            "import Bnum.Model.Consts\n"
+            "namespace Bnum.Generated\n"
+            "/-- `pos_const!` invocation of src/buint/consts.rs -/\n"
+            "def posU : List (String × Nat) := " + tab(pu) + "\n"
+            "/-- `ONE` + `pos_const!` invocation of src/bint/consts.rs -/\n"
+            "def posI : List (String × Nat) := " + tab(pi) + "\n"
+            "/-- `neg_const!` invocation of src/bint/consts.rs -/\n"
+            "def negI : List (String × Nat) := " + tab(ni) + "\n"
+            "/-- the model's constants (and every theorem of Props/C16.lean about ONE..TEN, NEG_ONE..NEG_TEN) are built from exactly these tables -/\n"
+            "theorem posU_is_model : posU = Bnum.Consts.posNames := rfl\n"
+            "theorem posI_is_model : posI = Bnum.Consts.posNames := rfl\n"
+            "theorem negI_is_model : negI = Bnum.Consts.negNames := rfl\n"
+            "end Bnum.Generated\n")
+    path = os.path.join(ctx["lean"], "Bnum", "Generated", "ConstNames.lean")
+    old = open(path).read() if os.path.exists(path) else None
+    if old != lean:
+        open(path, "w").write(lean)
+    rc, out, err = ctx["run"](["lake", "build", "Bnum.Generated.ConstNames"], cwd=ctx["lean"], timeout=1800)
+    if rc != 0:
+        problems.append("the constant tables of consts.rs no longer equal the model's tables (Generated/ConstNames.lean): " + (out + err)[-600:])
     return problems
